@@ -24,6 +24,7 @@ from __future__ import annotations
 import json
 import time
 
+from harness import c05_guard as G
 from harness import c05_x as X
 from harness.common import Ctx, REPO, git_blob
 
@@ -34,6 +35,10 @@ def _sample(case):
         "nodes_head": case["nodes"][:6], "edges_head": case["edges"][:6]}
 
 
+class StopGeneration(Exception):
+    """Enough non-terminating runs seen: every further case would cost its full time limit."""
+
+
 class Runner:
     def __init__(self, ctx: Ctx):
         self.ctx = ctx
@@ -41,6 +46,7 @@ class Runner:
         self.meta: list[tuple[dict, str]] = []   # (case, kind)
         self.weight: list[float] = []
         self.direct_fail: list[tuple[dict, dict]] = []
+        self.nonterm: list[tuple[dict, str]] = []
         self.engine_s = 0.0
 
     def add(self, case, trace=False, full=None):
@@ -49,6 +55,12 @@ class Runner:
         t0 = time.time()
         try:
             rows, cap = X.run_impl(case, capture=("count" if (n > 60 or trace == "count") else True) if trace else False)
+        except G.NonTermination as e:
+            self.engine_s += time.time() - t0
+            self.nonterm.append((case, str(e)))
+            if len(self.nonterm) >= 3:
+                raise StopGeneration() from e
+            return
         except Exception as e:  # noqa: BLE001
             self.engine_s += time.time() - t0
             self.direct_fail.append((case, {"error": repr(e)[:800]}))
@@ -105,8 +117,6 @@ def generate(ctx: Ctx, R: Runner):
     max_single = 5 if quick else 6
     for n in range(1, max_single + 1):
         graphs = list(X.labelled_graphs(n))
-        if n == 6:
-            graphs = rng.sample(graphs, 6000)            # the rest of the 32768 go through the unions below
         for g in graphs:
             R.add(X.exhaustive_case(rng, n, g, "sqlite"))
     for n in range(2, 5):
@@ -265,15 +275,7 @@ Open Scope string_scope.
 """
 
 
-def skeleton_stage(ctx: Ctx):
-    """T: regenerate the relational skeleton of every CTE of solve_connected_components from /repo and
-    let Coq compare it with the skeleton Model/CCSkel.v records for the corresponding Gallina definition."""
-    from translators import c05_sql as T
-    try:
-        obs = T.obligations()
-    except Exception as e:  # noqa: BLE001
-        ctx.obligation("T: record and translate the SQL of solve_connected_components", False, repr(e)[:600])
-        return [{"obligation": "T: statement recording", "why": repr(e)[:600]}]
+def _eval_skeletons(ctx: Ctx, T, obs, tag):
     broken = []
     terms, names = [], []
     for name, s, err in obs:
@@ -283,7 +285,7 @@ def skeleton_stage(ctx: Ctx):
             continue
         terms.append(f'("{name.split("@")[0]}", {T.to_coq(s)})')
         names.append((name, s))
-    bad, errs = ctx.eval_cases("C05_skel", SKEL_HEADER, terms, "skel_ok", shard=100, timeout=300)
+    bad, errs = ctx.eval_cases(tag, SKEL_HEADER, terms, "skel_ok", shard=100, timeout=300)
     for e in errs:
         ctx.obligation("T skeleton shard evaluation", False, e)
         broken.append({"obligation": "T skeleton shard evaluation", "why": e[:400]})
@@ -294,17 +296,40 @@ def skeleton_stage(ctx: Ctx):
         ctx.log(f"OBLIGATION FAILED: T skeleton {name}: regenerated {T.to_text(s)}")
         broken.append({"obligation": f"T skeleton {name}", "regenerated_skeleton": T.to_text(s),
                        "expected": "Model/CCSkel.v: sk_" + name.split("@")[0].replace("/", "_")})
-    ctx.cov["skeleton_obligations"] = len(terms) + sum(1 for _, _, e in obs if e)
-    ctx.cov["skeleton_obligation_names"] = [n for n, _, _ in obs]
-    if names:
+    return broken, names
+
+
+def skeleton_stage(ctx: Ctx):
+    """T: regenerate the relational skeleton of every CTE of solve_connected_components from /repo and
+    let Coq compare it with the skeleton Model/CCSkel.v records for the corresponding Gallina definition.
+    The static obligation about the Python while loop is decided first, before anything is run: if the
+    loop header changed the probe runs are skipped (they might never return)."""
+    from translators import c05_sql as T
+    static = T.static_obligations()
+    broken, _ = _eval_skeletons(ctx, T, static, "C05_skel_static")
+    ctx.cov["skeleton_obligation_names"] = [n for n, _, _ in static]
+    ctx.cov["skeleton_obligations"] = len(static)
+    if broken:
+        ctx.cov["skeleton_probes_skipped"] = "python_loop obligation failed"
+        ctx.log("T: python_loop obligation failed; probe runs skipped")
+        return broken
+    try:
+        obs = T.obligations()
+    except Exception as e:  # noqa: BLE001
+        ctx.obligation("T: record and translate the SQL of solve_connected_components", False, repr(e)[:600])
+        return [{"obligation": "T: statement recording", "why": repr(e)[:600]}]
+    broken, names = _eval_skeletons(ctx, T, obs, "C05_skel")
+    ctx.cov["skeleton_obligations"] += len(obs)
+    ctx.cov["skeleton_obligation_names"] += [n for n, _, _ in obs]
+    if len(names) >= 2:
         ctx.cov["samples"].append({"skeleton_obligation": {"name": names[-2][0], "skeleton": T.to_text(names[-2][1])}})
     return broken
 
 
 def run(ctx: Ctx):
     ctx.cov["rule"] = (
-        "every labelled graph on <=4 nodes (quick: <=5 one by one on SQLite, thorough: +6000 of the 32768 on 6 nodes one "
-        "by one and all of them in disjoint unions) both as single inputs and as disjoint unions with order-preserving "
+        "every labelled graph on 1..5 nodes singly on SQLite (thorough: also all 32768 on 6 nodes singly on SQLite and in 256 "
+        "unions on DuckDB), the <=4-node (and 5-node, DuckDB) graphs also as disjoint unions with order-preserving "
         "id offsets; seeded families (paths in sorted/bit-reversal/zig-zag/random id order, stars, cliques joined by "
         "bridges, forests of small components, binary trees, cycles, sparse random) with duplicate, reversed and self "
         "edges, integer / string / composite (source_dataset, unique_id) ids, thresholds None / probability (also equal "
@@ -331,18 +356,34 @@ def run(ctx: Ctx):
                                     "splink/internals/unique_id_concat.py", "splink/internals/misc.py"]}
     broken_T = skeleton_stage(ctx)
     R = Runner(ctx)
-    if ctx.replay:
-        rp = json.loads(open(ctx.replay).read())
-        case = rp.get("case")
-        if case is None:
-            ctx.log("replay file names no case; running the full check")
-            generate(ctx, R)
+    try:
+        if ctx.replay:
+            rp = json.loads(open(ctx.replay).read())
+            case = rp.get("case")
+            if case is None:
+                ctx.log("replay file names no case; running the full check")
+                generate(ctx, R)
+            else:
+                R.add(case, trace=len(case["nodes"]) <= 150)
         else:
-            R.add(case, trace=len(case["nodes"]) <= 150)
-    else:
-        generate(ctx, R)
-        if not ctx.quick:
-            generate_spark(ctx, R)
+            generate(ctx, R)
+            if not ctx.quick:
+                generate_spark(ctx, R)
+    except StopGeneration:
+        ctx.log("generation stopped: the implementation does not terminate on the inputs tried")
+    for case, why in sorted(R.nonterm, key=lambda cw: len(cw[0]["nodes"]))[:3]:
+        ctx.violation("clustering does not terminate: " + why,
+                      {"case": case, "implementation": why,
+                       "specification": "C05_terminates: at most |V|^2+1 passes of the loop, then every node once with its component minimum"},
+                      dict(X.features_of(case), non_termination=True))
+    ctx.obligation("every clustering terminated within the proved pass bound and the time limit", not R.nonterm)
+    if X.CONVERSION_BAD:
+        ctx.violation("threshold_args_to_match_prob(None, w) is not within 2 ulp of 2^w/(1+2^w)",
+                      {"case": X.CONVERSION_BAD[0], "implementation": X.CONVERSION_BAD[0]["implementation"],
+                       "specification": X.CONVERSION_BAD[0]["specification 2^w/(1+2^w)"], "all": X.CONVERSION_BAD[:10]},
+                      {"weight_conversion": True})
+    ctx.obligation(f"match-weight conversion within 2 ulp of 2^w/(1+2^w) ({len(X.CONVERSION_CHECKED)} weights, 60-digit arithmetic)",
+                   not X.CONVERSION_BAD)
     ctx.log(f"generated {len(R.meta)} comparisons ({R.engine_s:.1f}s in the engines); evaluating the model in Coq")
     reported = 0
     for case, info in R.direct_fail[:5]:
@@ -356,8 +397,8 @@ def run(ctx: Ctx):
     ctx.obligation("implementation output is a function on the node table for every case", not R.direct_fail)
     # spread the expensive cases over the shards (shards are evaluated in parallel)
     N = len(R.terms)
-    S = max(1, min(16, (N + 59) // 60))
-    sz = (N + S - 1) // S
+    S = max(1, min(16 if ctx.quick else 96, (N + 59) // 60))
+    sz = max(1, (N + S - 1) // S)
     order = sorted(range(N), key=lambda i: -R.weight[i])
     slots = [None] * (S * sz)
     for pos, i in enumerate(order):
@@ -388,7 +429,7 @@ def run(ctx: Ctx):
             found += 1
         elif found < 3:
             unexplained.append((case, kind))
-    if broken_T and not found and not reported:
+    if broken_T and not found and not reported and not R.nonterm:
         ctx.violation(
             "the SQL that solve_connected_components emits no longer has the shape Model/CC.v encodes ("
             + ", ".join(b["obligation"] for b in broken_T[:6]) + "); the search over the exhaustive and adversarial "
